@@ -16,6 +16,7 @@ def holdoutInit : List Op :=
     s (set "skip" (max (div (mul 64 (var "available") (sub 32 (lit 100) (var "perc"))) (lit 100)) (lit 1))),
     forDown "i" (sub 64 (var "available") (lit 1)) (ge (var "i") (var "skip"))
       [set "curr" (var "i"), set "rand" (sup (add 64 (var "i") (lit 1))), swap .tr (var "curr") (var "rand")],
+    s (cloneSchema .va .tr),
     s (set "from" (var "skip")),
     s (copyBack .tr (var "from") (size .tr) .va),
     s (erase .tr (var "from") (size .tr)),
@@ -29,7 +30,8 @@ def clearEvaluators : List Op := [ s (clearEva .t), s (clearEva .v) ]
 
 /-- `dss::move_to_validation()` -/
 def moveToValidation : List Op :=
-  [ s (moveBack .tr (lit 0) (size .tr) .va), s (clear .tr) ]
+  [ ifThen (and (empty .va) (not (empty .tr))) [cloneSchema .va .tr],
+    s (moveBack .tr (lit 0) (size .tr) .va), s (clear .tr) ]
 
 /-- `dss::init(unsigned)` -/
 def dssInit : List Op :=
@@ -90,6 +92,9 @@ def weightSum : AccE := ⟨.va, 64, 0, weight⟩
 
 /-- the predicate handed to `std::partition` (true = NOT selected), canonical text -/
 def selectPred : String := "p1=(double(weight(e)) * k); prob=min(p1, 1.0); return (boolean(prob) == false)"
+
+/-- what `dataframe::clone_schema(other)` assigns: (member, source) – metadata members only -/
+def cloneSchemaSets : List (String × String) := [("columns", "other.columns"), ("classes_map_", "other.classes_map_")]
 
 /-- the overloads of `dataframe::push_back` taking an example (parameter types) -/
 def pushBackOverloads : List String := ["const vita::dataframe::example &"]
